@@ -83,6 +83,7 @@ def run(ctx):
     g5(ctx, F, D)
     g6(ctx, F, D)
     g7(ctx, F, D)
+    g1b(ctx, F, D)
     g9(ctx, F, D)
     g10(ctx, F)
 
@@ -388,6 +389,15 @@ def g12(ctx, F, D):
     ctx.check("C01.G1", "detector:no-other-step-attackers", not any(extra.values()), fn=DET, file=fn["file"], nontrivial=False,
               what="a piece kind other than knight, king and pawn is detected by a single step", found=extra)
     ctx.floor("C01.G1", "step sites in the detector", nsites, 3)
+    # ... and when none of its sites reports an attacker the square is not attacked: the function's own value is `false`
+    dbody = hir.strip(fn["hir"]["body"])
+    tail = dbody.get("expr") if dbody.get("k") == "Block" else None
+    dsym_ = hir.Sym(hir.Env(fn["hir"], F), F)
+    tv = dsym_(tail) if tail is not None else None
+    if tv is not None and tv[:1] == ("lit",):       # (a tail that is itself a test is a site of its own)
+      ctx.check("C01.G1", "detector:no-attacker-found=>not-attacked", tv == ("lit", False), fn=DET, file=fn["file"],
+                line=hir.line(tail) if tail is not None else fn["span"][0],
+                what="after all step sites and rays found no attacker the detector must answer `false`", expected="false", found=hir.fmt(tv, 60) if tv else None)
 
 
 def g3(ctx, F, D):
@@ -568,6 +578,33 @@ def ray_body_detector(ctx, det, lb, m, names, sym, direction):
         if ("(piece.owner != player)", True) in t and sym(r["e"]) == ("lit", True):
             hit = True
     ok = edge and blocker and hit and len(rets) == 1 and len(breaks) == 2
+    # who is reported: decided by cases on the first piece met (owner x kind) for an attacked side
+    want_kinds = {"Rook", "Queen"} if direction in ORTH else {"Bishop", "Queen"}
+    SOME_ = "std::prelude::v1::Some"
+    wrong = []
+    for r in rets:
+        if sym(r["e"]) != ("lit", True):
+            continue
+        term = hir.guards_term(hir.guards_of(r, lb, sym) or [])
+        a1 = {t_: ("ctor", SOME_, (("var", "NP"),)) for t_ in hir.subterms(term)
+              if isinstance(t_, tuple) and t_[:1] == ("call",) and str(t_[1]).endswith("Position::add")}
+        t1 = hir.fold(term, a1)
+        gets = [t_ for t_ in hir.subterms(t1) if isinstance(t_, tuple) and t_[:1] == ("call",) and str(t_[1]).endswith("Game::get_position")]
+        for side in ("White", "Black"):
+            for owner in ("White", "Black"):
+                for kind_ in ("Pawn", "Knight", "Bishop", "Rook", "Queen", "King"):
+                    pc_ = ("ctor", SOME_, (("struct", "chess::piece::Piece", (("owner", ("variant", PL + owner)), ("piece_type", ("variant", PT + kind_)))),))
+                    a2 = {g_: pc_ for g_ in gets}
+                    a2[("var", "player")] = ("variant", PL + side)
+                    v = hir.fold(hir.fold(t1, a2), a2)
+                    exp = owner != side and kind_ in want_kinds
+                    if v != ("lit", exp) and not (not exp and hir.all_leaves_false(v)):
+                        wrong.append((side, owner, kind_, hir.fmt(v, 40)))
+    if rets and gets:
+        ctx.check("C01.G3b", "detector:ray-%s-reports-exactly-the-enemy-sliders-of-that-line" % (direction,), not wrong, fn=det["path"], file=det["file"],
+                  line=hir.line(m),
+                  what="along this line the first piece met must be reported exactly when it is an enemy %s" % " or ".join(sorted(want_kinds)),
+                  expected="owner != player && kind in %s" % sorted(want_kinds), found=wrong[:4])
     ctx.check("C01.G3b", "detector:ray-%s-stops-at-first-piece" % (direction,), ok, fn=det["path"], file=det["file"], line=hir.line(m),
               what="a detector ray must report an enemy slider, stop at the first piece of any kind and stop at the board edge "
                    "(otherwise pieces attack through blockers)",
@@ -752,6 +789,50 @@ def g5(ctx, F, D):
                       expected="pushed iff right && columns %s empty && columns %s not attacked" % (empties, safe),
                       found=bad[:4] if site else "no construction site")
     ctx.floor("C01.G5", "castling cases", n, 4)
+
+
+def g1b(ctx, F, D):
+    """G1b a knight step is generated exactly when its destination is on the board and does not hold a piece of the mover, as a
+    Normal move from `pos` to that square capturing what stands there - decided by cases on the content of the destination."""
+    fn = F.fn(KNIGHTF)
+    ps, sym = pushes_of(fn, F)
+    steps = [p for p in ps if p[1][0] == "struct" and p[1][1] == MV + "Normal"]
+    bad = []
+    if len(steps) != 1:
+        bad.append(("construction sites", len(steps)))
+    else:
+        n, mv, guards = steps[0]
+        SOME_, NONE_ = "std::prelude::v1::Some", ("variant", "std::prelude::v1::None")
+        term = hir.guards_term(guards, rest=mv)
+        a1 = {t_: ("ctor", SOME_, (("var", "NP"),)) for t_ in hir.subterms(term)
+              if isinstance(t_, tuple) and t_[:1] == ("call",) and str(t_[1]).endswith(("Position::add", "Position::new"))}
+        t1 = hir.fold(term, a1)
+        gets = [t_ for t_ in hir.subterms(t1) if isinstance(t_, tuple) and t_[:1] == ("call",) and str(t_[1]).endswith("Game::get_position")]
+        for mover in ("White", "Black"):
+            other = "Black" if mover == "White" else "White"
+            for label, content, gen in (("empty", NONE_, True),
+                                        ("own piece", ("ctor", SOME_, (("struct", "chess::piece::Piece", (("owner", ("variant", PL + mover)), ("piece_type", ("variant", PT + "Pawn")))),)), False),
+                                        ("enemy piece", ("ctor", SOME_, (("struct", "chess::piece::Piece", (("owner", ("variant", PL + other)), ("piece_type", ("variant", PT + "Rook")))),)), True)):
+                a2 = {g_: content for g_ in gets}
+                a2[("field", ("var", "game"), "current_player")] = a2[("field", ("var", "self"), "owner")] = ("variant", PL + mover)
+                a2[("call", "chess::Game::player", (("var", "game"),))] = ("variant", PL + mover)
+                for x in hir.subterms(t1):
+                    if isinstance(x, tuple) and x[:1] == ("field",) and len(x) == 3 and x[2] == "player" and x[1][:1] == ("var",):
+                        a2[x] = ("variant", PL + mover)
+                v = hir.fold(hir.fold(t1, a2, D), a2, D)
+                if not gen:
+                    if not (v == ("lit", False) or hir.all_leaves_false(v)):
+                        bad.append((mover, label, "generated: %s" % hir.fmt(v, 60)))
+                else:
+                    f = dict(v[2]) if isinstance(v, tuple) and v[:1] == ("struct",) and v[1] == MV + "Normal" else None
+                    if f is None or f.get("end") != ("var", "NP") or f.get("start") != ("var", "pos") or f.get("captured_piece") != content \
+                            or f.get("piece") != ("var", "self"):
+                        bad.append((mover, label, hir.fmt(v, 100)))
+    ctx.check("C01.G1", "knight-steps:onto-any-square-not-held-by-the-mover", not bad, fn=KNIGHTF, file=fn["file"],
+              line=hir.line(steps[0][0]) if steps else fn["span"][0],
+              what="a knight step is generated exactly when the destination is on the board and holds no piece of the side to move, as a "
+                   "Normal move from the knight's square to it, capturing what stands there",
+              expected="empty -> quiet move, enemy piece -> capture, own piece -> nothing", found=bad[:4])
 
 
 def g7(ctx, F, D):
@@ -976,6 +1057,33 @@ def g9(ctx, F, D):
               what="stepping from a square must give (row+drow, col+dcol) exactly when both stay on the board, None otherwise "
                    "(a wrong edge makes pieces wrap around or stop short)", expected="Some(row+d0, col+d1) iff both in 0..8",
               found=bad[:4] or "%d (square, step) cases" % n_)
+    # the other constructors the generators and the importer use: `new` accepts exactly the 64 squares, the unchecked step gives the
+    # same square as the checked one wherever that is on the board
+    for name, label in (("new", "Position::new"), ("add_unsafe", "Position::add_unsafe")):
+        if "chess::position::Position::" + name not in F.fns:
+            continue
+        pf = F.fn("chess::position::Position::" + name)
+        bad, n_ = [], 0
+        try:
+            for args, v in position_constructor_cases(F, name):
+                n_ += 1
+                if name == "new":
+                    r, c = args
+                    want = ("ctor", "std::prelude::v1::Some", (("pos", r, c),)) if 0 <= r < 8 and 0 <= c < 8 else ("variant", "std::prelude::v1::None")
+                    if v != want:
+                        bad.append((args, fmtn(v, 60)))
+                else:
+                    r, c, dr, dc = args
+                    if 0 <= r + dr < 8 and 0 <= c + dc < 8:
+                        got = [x for x in hir.subterms(v) if x[:1] == ("pos",)]
+                        if v != ("pos", r + dr, c + dc) and got != [("pos", r + dr, c + dc)]:
+                            bad.append((args, fmtn(v, 60)))
+        except (hir.Unsupported, inline.Cannot) as e:
+            bad.append(("not summarisable", str(e)))
+        ctx.check("C01.G9", "board-edges:%s" % label, not bad and n_ > 0, fn=pf["path"], file=pf["file"], line=pf["span"][0],
+                  what="%s must name the square (row, col) / (row+drow, col+dcol) for every square of the board (a constructor that refuses a "
+                       "rank or a file, or steps the wrong way, loses or misplaces moves)" % label,
+                  expected="all 64 squares, nothing else", found=bad[:4] or "%d cases" % n_)
     gm = F.fn(FILTER)
     genv = hir.Env(gm["hir"], F)
     gsym = hir.Sym(genv, F)
